@@ -114,10 +114,10 @@ def build_ops(desc, W, real_id):
             elif w == "session":
                 yield ["NewSession", "A"]
                 nsess += 1
-            elif w.startswith("id"):
-                yield ["OpenId", nsess - 1, real_id(sps[int(w[-1])])]
             elif w == "ids":
                 yield ["Ids", nsess - 1]
+            elif w.startswith("id"):
+                yield ["OpenId", nsess - 1, real_id(sps[int(w[-1])])]
         # closing observations in a fresh session
         yield ["NewSession", "A"]
         nsess += 1
